@@ -72,8 +72,13 @@ def d1_d2_d3(ck):
         seen_depth = seen_lookup = False
         extra = []
         for c, tk in g:
-            if c[0] == "bin" and c[1] in ("Gt", "Ne") and ("param", depth_p) in (c[2], c[3]) and 0 in (const_value(c[2]), const_value(c[3])) and tk is True:
+            if c[0] == "bin" and c[1] in ("Gt", "Ne") and ("param", depth_p) in (c[2], c[3]) and 0 in (const_value(c[2]), const_value(c[3])) and tk is True \
+                    and not (c[1] == "Gt" and c[3] == ("param", depth_p)):
                 seen_depth = True
+            elif c[0] == "bin" and c[1] == "Lt" and c[3] == ("param", depth_p) and const_value(c[2]) == 0 and tk is True:
+                seen_depth = True      # 0 < current_depth
+            elif c[0] == "bin" and c[1] == "Eq" and ("param", depth_p) in (c[2], c[3]) and 0 in (const_value(c[2]), const_value(c[3])) and tk is False:
+                seen_depth = True      # not (current_depth == 0), e.g. a named `is_root` local
             elif is_call(c, "Option::<T>::is_some") and is_call(c[2][0], HIST + "::lookup") and tk is True:
                 seen_lookup = True
             elif any(x == ("param", names.get("nodes_searched")) or is_call(x, S + "CancellationToken::is_cancelled") for x in walk(c)):
@@ -186,7 +191,10 @@ def d5_history_monotone(ck):
     prog = ck.prog
     adt = ck.adt(HIST, "D5")
     f = adt["variants"][0]["fields"]
-    ck.req(len(f) == 1 and "HashMap<u64, usize>" in f[0]["ty"] and not f[0]["public"], "D5.repr", "StateHistory", "", "StateHistory is not a private HashMap<u64, usize>: %s" % [(x["name"], x["ty"]) for x in f])
+    import re as _re
+    m_ = _re.search(r"HashMap<u64, (u8|u16|u32|u64|usize|i32|i64|isize)(,|>)", f[0]["ty"]) if len(f) == 1 else None
+    ck.req(m_ is not None and not f[0]["public"], "D5.repr", "StateHistory", "", "StateHistory is not a private HashMap<u64, integer count>: %s" % [(x["name"], x["ty"]) for x in f])
+    vty = m_.group(1) if m_ else "usize"
     bad_ops = ("::remove", "::clear", "::retain", "::drain", "::remove_entry", "::extract_if", "::shrink_to", "::take")
     n = 0
     for b in ws_bodies(prog, ("weechess_engine",)):
@@ -196,7 +204,7 @@ def d5_history_monotone(ck):
             if "hash::map::HashMap" in cn:
                 g = [x.strip() for x in t.get("generics", [])]
                 # only maps with the history's key/value types (the field is private: other maps cannot alias it)
-                if len(g) >= 2 and (g[0], g[1]) != ("u64", "usize"):
+                if len(g) >= 2 and (g[0], g[1]) != ("u64", vty):
                     continue
                 n += 1
                 if cn.endswith(bad_ops):
